@@ -287,11 +287,9 @@ impl RenetServer {
         }
         client.disconnect();
 
-        if self.connections.remove(&client_id).is_some() {
-            self.events.push_back(ServerEvent::ClientDisconnected {
-                client_id,
-                reason: DisconnectReason::DisconnectedByClient,
-            });
+        if let Some(connection) = self.connections.remove(&client_id) {
+            let reason = connection.disconnect_reason().unwrap_or(DisconnectReason::DisconnectedByClient);
+            self.events.push_back(ServerEvent::ClientDisconnected { client_id, reason });
         }
     }
 
